@@ -1,5 +1,6 @@
 import Lace.Props.C10
 import Lace.Props.C10Big
+import Lace.Props.C10Ref
 #print axioms Lace.C10.paused_machine_on_trajectory
 #print axioms Lace.C10.stepInto_iter
 #print axioms Lace.C10.continue_iter
@@ -14,3 +15,22 @@ import Lace.Props.C10Big
 #print axioms Lace.C10.continue_exact
 #print axioms Lace.C10.stepOver_exact
 #print axioms Lace.C10.stepOut_exact
+#print axioms Lace.C10.stepping_refines_reference
+#print axioms Lace.C10.stepping_refines_reference_done
+#print axioms Lace.C10.reference_refines_stepping
+#print axioms Lace.C10.reference_fuel_refines_stepping
+#print axioms Lace.C10.stepping_fuel_prefix
+#print axioms Lace.C10.session_sim
+#print axioms Lace.C10.cmd_sim
+#print axioms Lace.C10.single_command
+#print axioms Lace.C10.step_into_exact_with_breakpoints
+#print axioms Lace.C10.step_over_call_pauses_at_return
+#print axioms Lace.C10.step_out_stops_after_ret
+#print axioms Lace.C10.step_out_without_stack
+#print axioms Lace.C10.continue_stops_only_at_interrupt
+#print axioms Lace.RefDebugProofs.run_sim
+#print axioms Lace.RefDebugProofs.classOk_all
+#print axioms Lace.RefDebugProofs.runObs_fst
+#print axioms Lace.C10.runUntil_paused
+#print axioms Lace.C10.runUntil_count_le
+#print axioms Lace.C10.resume_paused
